@@ -5,25 +5,31 @@ package c10
 
 import (
 	"fmt"
+	"os"
+	"path/filepath"
+	"runtime"
+	"runtime/debug"
 	"sort"
+	"strings"
 	"testing"
 	"time"
 
+	"github.com/containerd/stargz-snapshotter/cache"
 	"github.com/containerd/stargz-snapshotter/util/cacheutil"
 	"verifsim/hx"
 	"verifsim/simrt"
 )
 
 type op struct {
-	client  int
-	kind    string // add get remove done
-	key     string
-	val     int // value offered (add) or handle's value (done)
-	ret     int // value returned (add/get), -1 none
-	flag    bool // added / hit / evict
-	first   bool // done: first release of this handle
-	lin     uint64
-	at      time.Duration
+	client int
+	kind   string // add get remove done
+	key    string
+	val    int  // value offered (add) or handle's value (done)
+	ret    int  // value returned (add/get), -1 none
+	flag   bool // added / hit / evict
+	first  bool // done: first release of this handle
+	lin    uint64
+	at     time.Duration
 }
 
 type evict struct {
@@ -41,7 +47,98 @@ type handle struct {
 	released bool
 }
 
+// runUsers drives a user of the LRU cache named by the property, the descriptor cache of the
+// directory chunk cache (cache/cache.go): the eviction callback of a cached *os.File is Close, so
+// "runs exactly once ... nothing leaks" is observable in the descriptor table: once every reader
+// and writer is closed, at most MaxCacheFds files of the cache directory are open.
+func runUsers(t *testing.T, tape *simrt.Tape) *hx.Outcome {
+	out := &hx.Outcome{Counters: map[string]int{}}
+	fdCap := 1 + tape.Draw("cfg", 2)
+	memCap := 1 + tape.Draw("cfg", 2)
+	nKeys := 2 + tape.Draw("cfg", 3)
+	nClients := 2 + tape.Draw("cfg", 2)
+	root, cleanup := hx.RunDir()
+	defer cleanup()
+	// os.File finalizers would close leaked descriptors at an unseeded moment: no collection during the run
+	defer runtime.GC()
+	defer debug.SetGCPercent(debug.SetGCPercent(-1))
+	gets := 0
+	res := simrt.Run(t, tape, simrt.Options{MaxSteps: 100000, HangAfter: time.Hour}, func(s *simrt.Sim, mt *simrt.Task) {
+		s.UseDisk(simrt.DiskCfg{Yield: true})
+		bc, err := cache.NewDirectoryCache(filepath.Join(root, "c"), cache.DirectoryCacheConfig{MaxLRUCacheEntry: memCap, MaxCacheFds: fdCap, SyncAdd: true})
+		if err != nil {
+			s.Fail("harness", "NewDirectoryCache: %v", err)
+			return
+		}
+		for k := 0; k < nKeys; k++ {
+			w, err := bc.Add(fmt.Sprintf("k%d", k))
+			if err != nil {
+				s.Fail("harness", "Add: %v", err)
+				return
+			}
+			w.Write([]byte(fmt.Sprintf("value-of-k%d", k)))
+			w.Commit()
+			w.Close()
+		}
+		var ts []*simrt.Task
+		for c := 0; c < nClients; c++ {
+			ts = append(ts, s.Go(fmt.Sprintf("client%d", c), func(t *simrt.Task) {
+				dr := func(n int) int { return s.Tape.Draw(t.Label, n) }
+				var open []cache.Reader
+				for i := 0; i < 4+dr(8); i++ {
+					if len(open) > 0 && dr(3) == 0 {
+						j := dr(len(open))
+						open[j].Close()
+						open = append(open[:j], open[j+1:]...)
+						continue
+					}
+					var o []cache.Option
+					if dr(4) == 0 {
+						o = append(o, cache.Direct())
+					}
+					r, err := bc.Get(fmt.Sprintf("k%d", dr(nKeys)), o...)
+					if err != nil {
+						continue
+					}
+					gets++
+					b := make([]byte, 32)
+					r.ReadAt(b, 0)
+					open = append(open, r)
+				}
+				for _, r := range open {
+					r.Close()
+				}
+			}))
+		}
+		mt.Join(ts...)
+		if s.Failed() {
+			return
+		}
+		n := 0
+		if ents, err := os.ReadDir("/proc/self/fd"); err == nil {
+			for _, e := range ents {
+				if tgt, err := os.Readlink("/proc/self/fd/" + e.Name()); err == nil && strings.HasPrefix(tgt, filepath.Join(root, "c")+"/") {
+					n++
+				}
+			}
+		}
+		if n > fdCap {
+			s.Fail("descriptor-not-finalised", "every reader of the directory cache is closed but %d of its files are still open; the descriptor cache holds at most %d: an evicted file's eviction callback (Close) never ran", n, fdCap)
+		}
+		bc.Close()
+	})
+	out.Res = res
+	out.Counters["users.gets"] += gets
+	out.Nontrivial = gets > 2
+	out.Signature = fmt.Sprintf("users/fd%d/mem%d/k%d/c%d", fdCap, memCap, nKeys, nClients)
+	out.Sample = map[string]any{"scenario": "descriptor cache of cache/cache.go", "fd_cap": fdCap, "keys": nKeys, "clients": nClients}
+	return out
+}
+
 func run(t *testing.T, tape *simrt.Tape) *hx.Outcome {
+	if tape.Draw("cfg", 8) == 0 {
+		return runUsers(t, tape)
+	}
 	isTTL := tape.Draw("cfg", 2) == 0
 	nClients := 2 + tape.Draw("cfg", 3)
 	nKeys := 1 + tape.Draw("cfg", 3)
@@ -216,11 +313,11 @@ func run(t *testing.T, tape *simrt.Tape) *hx.Outcome {
 }
 
 type vstate struct {
-	key      string
-	holders  int
-	inCache  bool
-	evicted  int
-	addedAt  time.Duration
+	key     string
+	holders int
+	inCache bool
+	evicted int
+	addedAt time.Duration
 	// staleRisk: the value was added at the very instant at which the timer of an
 	// older value of the same key fires. That timer evicts by key, so it may take
 	// this value out of the cache early (an expiry; not excluded by the property).
@@ -230,9 +327,9 @@ type vstate struct {
 func check(s *simrt.Sim, ops []op, evs []evict, isTTL bool, ttl time.Duration, capacity int, out *hx.Outcome) {
 	sort.SliceStable(ops, func(i, j int) bool { return ops[i].lin < ops[j].lin })
 	vals := map[int]*vstate{}
-	cur := map[string]int{}             // key -> value currently cached (model)
+	cur := map[string]int{}                // key -> value currently cached (model)
 	oldExp := map[string][]time.Duration{} // expiry instants of every value ever cached under key
-	var lru []string                    // front = most recent
+	var lru []string                       // front = most recent
 	touch := func(k string) {
 		for i, x := range lru {
 			if x == k {
@@ -426,11 +523,11 @@ func check(s *simrt.Sim, ops []op, evs []evict, isTTL bool, ttl time.Duration, c
 
 func TestC10(t *testing.T) {
 	hx.Main(t, hx.Prop{
-		ID:   "C10",
-		Rule: "each run draws the cache kind (TTL/LRU), 2-4 client tasks, 1-3 keys, ttl 1-5s, capacity 1-3 and up to 12 operations per client among Add(unique value)/Get/Remove/release(evict or not, repeated)/idle; timers fire on the simulated clock; every lock acquisition and timer callback is a scheduler decision. The operations are linearised by their first acquisition of the cache lock and replayed against a reference map with holder counts. non-trivial = a key was re-added while an older value of it was still held, or a value left the cache (expiry, removal, capacity, evicting release) while held; distinct = schedule hash x configuration",
-		Run:  run,
+		ID:              "C10",
+		Rule:            "each run draws the cache kind (TTL/LRU), 2-4 client tasks, 1-3 keys, ttl 1-5s, capacity 1-3 and up to 12 operations per client among Add(unique value)/Get/Remove/release(evict or not, repeated)/idle; timers fire on the simulated clock; every lock acquisition and timer callback is a scheduler decision. The operations are linearised by their first acquisition of the cache lock and replayed against a reference map with holder counts. non-trivial = a key was re-added while an older value of it was still held, or a value left the cache (expiry, removal, capacity, evicting release) while held; distinct = schedule hash x configuration. One run in eight instead drives a user of the LRU cache, the descriptor cache of the directory chunk cache (cache/cache.go): 2-3 clients open, read and close readers of 2-4 keys (Direct or not) against MaxCacheFds 1-2 with the garbage collector off; once every reader is closed at most MaxCacheFds files of the cache directory may be open (an evicted *os.File whose Close callback never ran is a leak)",
+		Run:             run,
 		HangIsViolation: true,
-		Components: map[string]string{"cacheutil.TTLCache": "real (instrumented copy)", "cacheutil.LRUCache": "real (instrumented copy)", "groupcache/lru": "real", "clock/timers": "simulated (testing/synctest), real time.AfterFunc path", "clients": "harness tasks"},
-		Assumptions: []string{"no stall injection: a TTL timer callback runs at the simulated instant addedAt+ttl; operations issued at exactly that instant are treated as ambiguous (both outcomes accepted)"},
+		Components:      map[string]string{"cacheutil.TTLCache": "real (instrumented copy)", "cacheutil.LRUCache": "real (instrumented copy)", "groupcache/lru": "real", "clock/timers": "simulated (testing/synctest), real time.AfterFunc path", "clients": "harness tasks"},
+		Assumptions:     []string{"no stall injection: a TTL timer callback runs at the simulated instant addedAt+ttl; operations issued at exactly that instant are treated as ambiguous (both outcomes accepted)"},
 	})
 }
